@@ -56,7 +56,9 @@ func TestVerifC08_OneShotRequests(t *testing.T) {
 			}
 			f.WriteString(strings.Join(lines, "\n") + "\n")
 			// input stays open: fzf keeps "reading" and its coordinator polls with growing delays
-			if _, ok := s.WaitFor(10, func(st *Status) bool { return st.TotalCount == len(lines) && st.Current != nil && st.Current.Index == 0 }); !ok {
+			if _, ok := s.WaitFor(10, func(st *Status) bool {
+				return st.TotalCount == len(lines) && st.Current != nil && st.Current.Index == 0
+			}); !ok {
 				f.Close()
 				s.Close()
 				infra(t, "fzf did not load the input")
